@@ -348,6 +348,63 @@ def h_tree(B, tree, kind, cplx, metric=False):
             B.eq("<y,J dx> == <J^H y,dx>", lhs, rhs)
 
 
+def _ref_einsum(subscripts, arrays):
+    """explicit index sums (independent of np.einsum); arrays: list of object arrays of Dual"""
+    iss, oss = subscripts.split("->")
+    terms = iss.split(",")
+    sizes = {}
+    for t, a in zip(terms, arrays):
+        for ax, letter in enumerate(t):
+            sizes[letter] = a.shape[ax]
+    letters = sorted(sizes)
+    out = np.empty([sizes[o] for o in oss], dtype=object)
+    for idx in np.ndindex(*out.shape):
+        out[idx] = Dual(0, 0)
+    import itertools
+    for assign in itertools.product(*[range(sizes[l]) for l in letters]):
+        env = dict(zip(letters, assign))
+        prod = Dual(1, 0)
+        for t, a in zip(terms, arrays):
+            prod = prod * a[tuple(env[l] for l in t)]
+        oi = tuple(env[o] for o in oss)
+        out[oi] = out[oi] + prod
+    return out
+
+
+def h_einsum(B, subscripts, key_order, shapes, static=(), use_key_order=True):
+    """MultiLinearEinsum: value and Jacobian vs explicit index sums on dual numbers"""
+    U = ift.UnstructuredDomain
+    doms = {k: ift.DomainTuple.make(tuple(U(n) for n in shapes[k])) for k in key_order}
+    var = [k for k in key_order if k not in static]
+    xs = {k: B.reals("x" + k, tuple(shapes[k])) for k in key_order}
+    dxs = {k: B.reals("d" + k, tuple(shapes[k])) for k in var}
+    with B.setup():
+        mdom = ift.MultiDomain.make({k: doms[k] for k in var})
+        smf = {k: field_of(doms[k], xs[k]) for k in static} if static else None
+        op = ift.MultiLinearEinsum(mdom, subscripts, key_order=tuple(key_order) if use_key_order else None, static_mf=smf)
+    arrs = []
+    for k in key_order:
+        a = np.empty(tuple(shapes[k]), dtype=object)
+        for idx in np.ndindex(*a.shape):
+            a[idx] = Dual(xs[k][idx], dxs[k][idx] if k in var else 0)
+        arrs.append(a)
+    ref = _ref_einsum(subscripts, arrs)
+    rv = np.array([u.v for u in ref.reshape(-1)], dtype=object if B.mode == "sym" else None)
+    rd = np.array([u.d for u in ref.reshape(-1)], dtype=object if B.mode == "sym" else None)
+    x = ift.MultiField.from_dict({k: field_of(doms[k], xs[k]) for k in var}, mdom)
+    dx = ift.MultiField.from_dict({k: field_of(doms[k], dxs[k]) for k in var}, mdom)
+    plain = op(x)
+    B.eq("einsum: op(x) == explicit index sum", flat_of(plain), rv)
+    lin = op(ift.Linearization.make_var(x))
+    B.eq("einsum: op(Lin).val == op(x)", flat_of(lin.val), flat_of(plain))
+    jdx = lin.jac(dx)
+    B.eq("einsum: Jacobian(dx) == true directional derivative", flat_of(jdx), rd)
+    y = B.reals("y", (op.target.size,))
+    jty = lin.jac.adjoint_times(unflat(op.target, y))
+    dxflat = np.concatenate([dxs[k].reshape(-1) for k in mdom.keys()])
+    B.eq("einsum: <y,J dx> == <J^T y,dx>", vdot_flat(y, flat_of(jdx)), vdot_flat(flat_of(jty), dxflat))
+
+
 # --------------------------------------------------------------------------
 
 REAL_FNS = [("exp",), ("log",), ("log10",), ("log1p",), ("expm1",), ("sqrt",), ("sin",), ("cos",), ("tan",),
@@ -405,10 +462,27 @@ def scenarios(tier, seed):
             pool.append((P(f, ["mul", "a", P(g, "b")]), "multi"))
     for t, kind in rng.sample(pool, min(n2, len(pool))):
         out.append(("tree", {"tree": t, "kind": kind, "cplx": False, "metric": True}))
+    # MultiLinearEinsum: operand orders that differ from the sorted key order, static operands, mixed shapes
+    ein = [
+        ("ij,jk,k->i", ["b", "a", "c"], {"b": [2, 2], "a": [2, 2], "c": [2]}, []),
+        ("ij,jk,k->i", ["a", "b", "c"], {"a": [2, 2], "b": [2, 2], "c": [2]}, []),
+        ("ij,jk,k->i", ["c", "a", "b"], {"c": [2, 3], "a": [3, 2], "b": [2]}, []),
+        ("ij,jk,k->i", ["b", "a", "c"], {"b": [2, 2], "a": [2, 2], "c": [2]}, ["a"]),
+        ("i,i->i", ["q", "p"], {"q": [2], "p": [2]}, []),
+        ("i,j->ij", ["q", "p"], {"q": [2], "p": [3]}, []),
+        ("ij,j->i", ["m", "v"], {"m": [2, 3], "v": [3]}, ["m"]),
+        ("i,i,i->i", ["c", "b", "a"], {"a": [2], "b": [2], "c": [2]}, []),
+        ("ij,ij,j->i", ["z", "x", "y"], {"z": [2, 2], "x": [2, 2], "y": [2]}, []),
+        ("ij,kj,k,i->j", ["d", "b", "c", "a"], {"d": [2, 2], "b": [2, 2], "c": [2], "a": [2]}, []),
+    ]
+    for subs, ko, shp, st in ein:
+        out.append(("einsum", {"subscripts": subs, "key_order": ko, "shapes": shp, "static": st}))
+    out.append(("einsum", {"subscripts": "ij,jk,k->i", "key_order": ["a", "b", "c"], "shapes": {"a": [2, 2], "b": [2, 2], "c": [2]},
+                           "static": [], "use_key_order": False}))
     return out
 
 
-HARNESSES = {"tree": h_tree}
+HARNESSES = {"tree": h_tree, "einsum": h_einsum}
 OPTS = {"quick": {"max_paths": 64}, "thorough": {"max_paths": 128, "budget_s": 1500}}
 
 META = {
@@ -422,12 +496,12 @@ META = {
     "functions_encoded": ["nifty.cl.operators.operator.{Operator.__call__,_OpChain.apply,_OpProd.apply,_OpSum.apply,_FunctionApplier.apply,"
                           "Operator.{ptw,scale,vdot,sum,conjugate,__pow__,__truediv__,__add__,__mul__,__sub__}}",
                           "nifty.cl.linearization.Linearization.{make_var,new,prepend_jac,__mul__,_myadd,__pow__,__truediv__,vdot,sum,ptw,conjugate}",
-                          "nifty.cl.pointwise.ptw_dict (all 24 entries) and helper functions",
+                          "nifty.cl.pointwise.ptw_dict (all 24 entries) and helper functions", "nifty.cl.operators.einsum.{MultiLinearEinsum.apply,LinearEinsum.apply}",
                           "nifty.cl.field.Field.{ptw,ptw_with_deriv}, nifty.cl.any_array.AnyArray.{ptw,ptw_with_deriv}"],
     "bounds": {"tree_depth": "<= 3", "pixels": 2, "keys": "1 or 2"},
     "stubs": shims_cl.STUBS[:5],
     "outside": ["JaxOperator", "points of non-differentiability (|x| at 0, clip/softplus branch points)",
-                "non-holomorphic functions on complex input", "MultiLinearEinsum (C02 covers LinearEinsum)"],
+                "non-holomorphic functions on complex input", "MultiLinearEinsum with complex operands"],
     "assumptions": ["function arguments in the function's valid range (log/sqrt/power(0.5): > 0; reciprocal/abs/sign/sinc/unitstep: != 0; "
                     "tan: cos != 0; softplus/clip: one branch per scenario)"],
 }
